@@ -417,6 +417,42 @@ func bigValues(c *explore.Ctx) {
 var parseDocs = []string{"1", `"a"`, "[1,2]", `{"a":1}`, "null", "-1.5e3", "true", `[{"a":[]}]`, `""`}
 var suffixes = []string{"", " ", "\n\t ", "x", " x", "1", " 1", "]", " ]", `"`, ",", " , 2"}
 
+// manyValues: long-lived Decoders - hundreds of values, hundreds of reads and of zero-length reads over the life
+// of one Decoder (what a Decoder counts or accumulates per read or per value must not run into a limit).
+func manyValues(c *explore.Ctx) {
+	count := []int{150, 400, 3000}[c.Choose(3)]
+	form := c.Choose(4)
+	zeros := []int{0, 1, 2, 5}[c.Choose(4)]
+	var sb strings.Builder
+	for i := 0; i < count; i++ {
+		switch form {
+		case 0:
+			fmt.Fprintf(&sb, "%d ", i)
+		case 1:
+			fmt.Fprintf(&sb, `{"k":%d,"s":"v%d"}`+"\n", i, i)
+		case 2:
+			fmt.Fprintf(&sb, `"str\"%d"`, i)
+		case 3:
+			fmt.Fprintf(&sb, "[%d,[%d]]\t", i, i)
+		}
+	}
+	s := []byte(sb.String())
+	var cnt int64
+	for _, chunks := range [][]int{{1}, {3}, {7, 1}, {4096}} {
+		if len(s) > 20000 && chunks[0] < 7 {
+			continue
+		}
+		check(c, s, len(s), &ctlReader{data: s, chunks: chunks, zeros: zeros, term: io.EOF}, 0, "many", str(fmt.Sprintf("%d values in chunks %v with %d zero-length reads before each", count, chunks, zeros)))
+		cnt++
+	}
+	c.Inner(cnt)
+	c.NontrivialStr("many", fmt.Sprint(count, form, zeros))
+	c.Outcome(fmt.Sprintf("values=%d zeros=%d", count, zeros))
+	if c.WantSample() || c.Failed() {
+		c.Case(map[string]any{"values": count, "form": form, "zero_length_reads_before_each_read": zeros, "schedules": cnt})
+	}
+}
+
 func parseRemainder(c *explore.Ctx) {
 	d := parseDocs[c.Choose(len(parseDocs))]
 	suf := suffixes[c.Choose(len(suffixes))]
@@ -558,6 +594,7 @@ func Spec() *explore.Spec {
 		Families: []*explore.Family{
 			{Name: "small-streams", ShardDepth: 3, Body: smallStreams, Doc: "streams of 1-2 (quick) / 1-3 (thorough) values (10 value forms incl. unterminated / truncated ones) x 4 separators, up to 10 bytes (quick) / 12 bytes (thorough): every prefix delivered, in every chunking (all compositions), with the terminal error {EOF, custom, io.ErrUnexpectedEOF} delivered alone or with the last bytes, zero-length reads interleaved, x {plain, UseNumber, DisallowUnknownFields}"},
 			{Name: "straddle", ShardDepth: 2, Body: straddle, Doc: "11 token kinds placed so that every split point of the token falls on every buffer / refill boundary (4096, 8192, 32768, 36864, 65536, 131072), after white space / a long string / a long array, followed by nothing / a value / white space and a value; full reads, single-byte reads at the boundary, 4096-byte reads, errors and truncations at the boundary"},
+			{Name: "many-values", ShardDepth: 2, Body: manyValues, Doc: "long-lived Decoders: streams of 150 / 400 / 3000 values (numbers, objects, strings with escapes, nested arrays) delivered in chunks of 1, 3, 7 and 4096 bytes with 0, 1, 2 or 5 zero-length reads before every read (hundreds to thousands of reads and of zero-length reads over the life of one Decoder): the same value stream as encoding/json"},
 			{Name: "big-values", ShardDepth: 2, Body: bigValues, Doc: "sequences of 1-2 values of sizes around the 4 KiB read quantum and the 32 KiB buffer (strings, arrays, white space runs) x 6 chunkings x error positions"},
 			{Name: "retained-values", ShardDepth: 2, Body: retained, Doc: "streams of ~70 KB alternating two of 10 value forms (ASCII, non-ASCII and escaped strings, numbers, objects, arrays) x {plain, UseNumber} x 3 chunkings x {any, struct} targets, every value retained: after the whole stream has been read each value equals what encoding/json delivered (the read buffer was refilled and moved several times in between)"},
 			{Name: "parse-remainder", ShardDepth: 2, Body: parseRemainder, Doc: "Parse returns exactly the bytes after the first value and its trailing white space: 9 documents x 12 suffixes x 3 leading white space forms x 3 targets"},
